@@ -122,6 +122,36 @@ func (s *generateState) generateType(t schema.Type, selections []ast.Selection, 
 		}
 		hasTypename := typenameField != ""
 
+		// The struct members that hold fragments are named after the fragment or its type condition.
+		// If that Go name is taken by a field of this selection set (or by another holder),
+		// underscores are appended until it is free.
+		taken := map[string]struct{}{}
+		for _, sel := range selections {
+			if field, ok := sel.(*ast.Field); ok {
+				k := field.Name.Name
+				if field.Alias != nil {
+					k = field.Alias.Name
+				}
+				taken[fieldName(k)] = struct{}{}
+			}
+		}
+		holders := map[string]string{}
+		holderKey := func(kind, name string) string {
+			if k, ok := holders[kind+name]; ok {
+				return k
+			}
+			k := name
+			for {
+				if _, ok := taken[fieldName(k)]; !ok {
+					break
+				}
+				k += "_"
+			}
+			taken[fieldName(k)] = struct{}{}
+			holders[kind+name] = k
+			return k
+		}
+
 		// type => field names
 		typeConditions := map[string][]string{}
 
@@ -134,8 +164,9 @@ func (s *generateState) generateType(t schema.Type, selections []ast.Selection, 
 					}
 				}
 				name := sel.FragmentName.Name
-				fields[name] = "*" + name + "Fragment `json:\"-\"`"
-				typeConditions[fragTypes[name]] = append(typeConditions[fragTypes[name]], name)
+				key := holderKey("spread ", name)
+				fields[key] = "*" + name + "Fragment `json:\"-\"`"
+				typeConditions[fragTypes[name]] = append(typeConditions[fragTypes[name]], key)
 			case *ast.InlineFragment:
 				if !hasTypename {
 					if _, ok := t.(*schema.ObjectType); !ok {
@@ -150,8 +181,9 @@ func (s *generateState) generateType(t schema.Type, selections []ast.Selection, 
 				if err != nil {
 					return "", err
 				}
-				fields[cond.TypeName()] = gen + " `json:\"-\"`"
-				typeConditions[cond.TypeName()] = append(typeConditions[cond.TypeName()], cond.TypeName())
+				key := holderKey("on ", cond.TypeName())
+				fields[key] = gen + " `json:\"-\"`"
+				typeConditions[cond.TypeName()] = append(typeConditions[cond.TypeName()], key)
 			case *ast.Field:
 				var selections []ast.Selection
 				if sel.SelectionSet != nil {
